@@ -11,6 +11,7 @@ import (
 	"time"
 
 	"github.com/markkurossi/mpc/circuit"
+	"github.com/markkurossi/mpc/types"
 
 	"verif/mpcl"
 	"verif/mpclgen"
@@ -60,15 +61,23 @@ func oneLine(s string) string {
 func runCase(ctx *runner.Ctx, k cs) {
 	ctx.Eval(1)
 	cc := compile(k.Src, k.Sizes)
-	if cc.err != "" {
-		ctx.Outcome("shape-rejected-by-compiler/" + k.Fam)
-		ctx.Note("rejected shape (" + k.Fam + "): " + firstLine(cc.err))
-		return
-	}
-	c := cc.c
 	fail := func(kind, what string) {
 		ctx.Violate(kind+"."+k.Fam, fmt.Sprintf("%s :: %s inputs g=%s e=%s ot=%s", what, oneLine(k.Src), k.G, k.E, k.OT), k)
 	}
+	if cc.err != "" {
+		ctx.Outcome("shape-rejected-by-compiler/" + k.Fam)
+		ctx.Note("rejected shape (" + k.Fam + "): " + firstLine(cc.err))
+		if strings.HasPrefix(cc.err, "compiler panic") {
+			// not a rejection but a crash of the whole-circuit compilation: there is no circuit to compare with,
+			// but a streaming session that hands both parties values for such a program cannot be right either
+			r := sess.RunStream(k.Src, []string{k.G}, []string{k.E}, k.Sizes, sess.Opts{Seed: 5, OT: k.OT})
+			if r.Outcome == "ok" && r.GErr == nil && r.EErr == nil && len(r.GOut) > 0 {
+				fail("streaming-returns-values-where-whole-circuit-compilation-panics", fmt.Sprintf("streaming: garbler=%v evaluator=%v; whole-circuit compilation: %s", r.GOut, r.EOut, firstLine(cc.err)))
+			}
+		}
+		return
+	}
+	c := cc.c
 	// whole-circuit reference on the same textual inputs
 	gin, err1 := c.Inputs[0].Parse([]string{k.G})
 	ein, err2 := c.Inputs[1].Parse([]string{k.E})
@@ -119,10 +128,45 @@ func runCase(ctx *runner.Ctx, k cs) {
 				fail("types", fmt.Sprintf("output %d type at the %s is %s (%d bits), compiled circuit says %s (%d bits)", i, side, t, t.Bits, w, w.Bits))
 				return
 			}
+			if what := typeDiff(t, w); what != "" {
+				fail("types.deep."+what, fmt.Sprintf("output %d type at the %s is %s, compiled circuit says %s: %s", i, side, t, w, what))
+				return
+			}
 		}
 	}
 	ctx.Outcome("agree/" + k.Fam)
 	ctx.Nontrivial(k.Src + "|" + k.G + "|" + k.E + k.OT)
+}
+
+// typeDiff compares two output types all the way down: element types of arrays, fields of structs.
+func typeDiff(t, w types.Info) string {
+	if t.Type != w.Type || t.Bits != w.Bits {
+		return "kind-or-width"
+	}
+	switch w.Type {
+	case types.TArray, types.TSlice:
+		if t.ArraySize != w.ArraySize {
+			return "array-size"
+		}
+		if (t.ElementType == nil) != (w.ElementType == nil) {
+			return "element-type-missing"
+		}
+		if w.ElementType != nil {
+			if d := typeDiff(*t.ElementType, *w.ElementType); d != "" {
+				return "element." + d
+			}
+		}
+	case types.TStruct:
+		if len(t.Struct) != len(w.Struct) {
+			return "struct-fields-missing"
+		}
+		for i := range w.Struct {
+			if d := typeDiff(t.Struct[i].Type, w.Struct[i].Type); d != "" {
+				return "field." + d
+			}
+		}
+	}
+	return ""
 }
 
 func firstLine(s string) string {
@@ -462,6 +506,11 @@ var fixedPrograms = []struct {
 	{"index-const-offset", "package main\n\nfunc get(p []uint8, i uint1) uint8 {\n\treturn p[i]\n}\n\nfunc f(p *[8]uint8, i uint1) (uint8, uint8, uint8) {\n\treturn get(p[4:6], i), get(p[6:8], i), get(p[0:2], i)\n}\n\nfunc main(a [8]uint8, b uint1) (uint8, uint8, uint8) {\n\treturn f(&a, b)\n}\n", nil, []string{"0x0001020304050607", "0x0001020304050607", "0xa0a1a2a3a4a5a6a7"}, []string{"1", "0", "1"}},
 	{"native-hamming", "package main\n\nfunc main(a, b uint32) uint32 {\n\treturn native(\"hamming\", a, b)\n}\n", nil, []string{"0xdeadbeef", "0", "0xffffffff"}, []string{"0x11111111", "0", "0"}},
 	{"native-hamming-64-8", "package main\n\nfunc main(a uint64, b uint8) (uint64, uint8) {\n\treturn native(\"hamming\", a, uint64(b)), native(\"hamming\", uint8(a), b)\n}\n", nil, []string{"0xdeadbeefcafebabe", "0xff"}, []string{"0x11", "0"}},
+	{"slice-concat-unequal", "package main\n\nfunc main(a, b []byte) ([]byte, int) {\n\tc := a + b\n\treturn c, len(c)\n}\n", [][]int{{24}, {16}}, []string{"0x010203", "0xfffefd"}, []string{"0x0405", "0x0001"}},
+	{"slice-concat-unequal-short-left", "package main\n\nfunc main(a, b []byte) ([]byte, int) {\n\tc := a + b\n\treturn c, len(c)\n}\n", [][]int{{16}, {24}}, []string{"0x0102", "0xfffe"}, []string{"0x030405", "0x000102"}},
+	{"slice-concat-equal", "package main\n\nfunc main(a, b []byte) ([]byte, int) {\n\tc := a + b\n\treturn c, len(c)\n}\n", [][]int{{16}, {16}}, []string{"0x0102", "0xfffe"}, []string{"0x0304", "0x0001"}},
+	{"struct-result", "package main\n\ntype P struct {\n\tX uint8\n\tY int16\n}\n\nfunc main(a, b uint8) (P, uint8) {\n\tvar p P\n\tp.X = a + b\n\tp.Y = int16(a) - int16(b)\n\treturn p, a ^ b\n}\n", nil, []string{"200", "7"}, []string{"77", "255"}},
+	{"nested-array-result", "package main\n\nfunc main(a, b uint8) [2][2]uint8 {\n\tvar r [2][2]uint8\n\tr[0][0] = a\n\tr[0][1] = b\n\tr[1][0] = a + b\n\tr[1][1] = a ^ b\n\treturn r\n}\n", nil, []string{"200", "7"}, []string{"77", "255"}},
 	{"loop", "package main\n\nfunc main(a, b uint8) uint8 {\n\tvar sum uint8\n\tfor i := 0; i < 4; i++ {\n\t\tt := (a >> i) & 1\n\t\tsum = sum + t*b\n\t}\n\treturn sum\n}\n", nil, []string{"13", "255"}, []string{"7", "3"}},
 }
 
@@ -554,6 +603,15 @@ func work(ctx *runner.Ctx) {
 	hashCollisions(ctx, quick, &idx)
 	mpclgen.Statements(quick, genEmit)
 	mpclgen.Casts(quick, genEmit)
+	// every operator x operand shape (the streamer has its own code for each instruction, e.g. for shifts by a
+	// constant count at or beyond the operand's width)
+	exprTypes := []refsem.Type{refsem.Int(8), refsem.Uint(8), refsem.Int(3)}
+	if !quick {
+		exprTypes = mpclgen.TypesFor(false)
+	}
+	for _, t := range exprTypes {
+		mpclgen.FamExpr(t, genEmit)
+	}
 	for fi, f := range fixedPrograms {
 		idx++
 		if !ctx.Mine(idx) {
